@@ -1443,7 +1443,17 @@ def extra_coverage(prop, tier, traces):
     for e in t['ev']:
       if e['e'] == 'Comp':
         comp[e['kind']] = comp.get(e['kind'], 0) + 1
-  return {'degraded_projections': deg, 'traces_by_kind': kinds, 'completions_by_kind': comp}
+  grow = 0      # dispatches during which the aperture admitted a member although it already had some
+  xclose = 0    # Close() calls that raised
+  for t in traces:
+    ev = t['ev']
+    for i, e in enumerate(ev):
+      if e['e'] == 'Disp' and e.get('U') and i > 0 and ev[i - 1]['e'] == 'Create':
+        grow += 1
+      elif e['e'] == 'CloseSeen' and e.get('x'):
+        xclose += 1
+  return {'degraded_projections': deg, 'traces_by_kind': kinds, 'completions_by_kind': comp,
+          'dispatches_with_aperture_growth': grow, 'closes_that_raised': xclose}
 
 
 # ====================================================================== direction A
